@@ -14,12 +14,14 @@
      c13_never_failed   for every such history, a server that has had no failing contact has no failure record, is
                         not evicted and is still in rotation: with c13_no_bypass, it is contacted by every call
                         placed on it
+     c13_escapes        for every such history with valid keys, every call returns a value or - only without
+                        ignore_exc - raises an OSError-class error or MemcacheError: never a KeyError/ValueError of
+                        the failover tables (Proofs/C13Escapes.v, the invariant held for all servers at once)
      the others         the per-call decision rules and bookkeeping facts
-   PARTIAL: recovery of the original
-   placement and "only the failing server's own error escapes" are per-call theorems (c13_eviction_clean) plus
+   PARTIAL: recovery of the original placement within two dead_timeout periods is checked by
    the search on the real class (oracle windows_ok on the real contact log, blip episodes, random long histories). *)
 From Coq Require Import ZArith List Bool Lia.
-From PM Require Import Lib.Py Model.Hash Spec.Failover Proofs.C12Proof Proofs.C13Proof Proofs.C13Windows Proofs.C13Oracle.
+From PM Require Import Lib.Py Model.Hash Spec.Failover Proofs.C12Proof Proofs.C13Proof Proofs.C13Windows Proofs.C13Oracle Proofs.C13Escapes.
 Import ListNotations.
 Open Scope Z_scope.
 
@@ -124,6 +126,24 @@ Proof.
   exact Cs.
 Qed.
 Print Assumptions c13_never_failed.
+
+(* "only the failing server's own error or 'all servers down' can escape a key-addressed call - never an internal
+   bookkeeping error - and nothing escapes with ignore_exc", for every history of calls with valid keys: every result is
+   a return value, or (only without ignore_exc) an OSError-class error or MemcacheError *)
+Theorem c13_escapes : forall (route : list server -> dyn -> exc (option server)) (c : hcfg),
+  (forall nodes k sv, route nodes k = Ok (Some sv) -> sv_mem nodes sv = true) ->
+  (forall nodes k, exists r, route nodes k = Ok r) ->
+  0 <= hc_retry_attempts c -> hc_retry_timeout c < hc_dead_timeout c ->
+  forall servers t0 times outs ops, mono t0 times -> Forall okout outs -> Forall (valid_op c) ops ->
+  exists rs, fst (run_hops route c ops (init_hstate servers t0 times outs)) = Ok rs /\
+             Forall (fun r => match r with
+                              | Ok _ => True
+                              | Raise e => hc_ignore_exc c = false /\ (exn_isa e OSError = true \/ e = MemcacheError) end) rs.
+Proof.
+  intros route c Hr Htot Ha Ht servers t0 times outs ops Hm Ho Hv.
+  apply (escapes_hold route c Hr Htot Ha Ht ops _ (init_all c servers t0 times outs Hm Ho) Hv).
+Qed.
+Print Assumptions c13_escapes.
 
 (* non-vacuity: a history that drives one server through failure, a retry inside the window (no contact), retries after
    it, eviction with the last contact, revival and a further failure meets the premises; its contact log is the one shown *)
